@@ -1,4 +1,5 @@
 import LoraVerif.Model.Mac
+import LoraVerif.Props.TieA.PrepareBuffer
 import LoraVerif.Gen.SessionStatic
 import LoraVerif.Props.TieA.Rx2Complete
 /-!
@@ -39,4 +40,30 @@ theorem tieA_rx2_complete (s0 : Session) (gs : Gen.SessionFn.Session) (g : Gen.S
 example : TieA.SessWF ⟨false, 7, none, 95⟩ := by simp only [TieA.SessWF]; omega
 
 #print axioms tieA_rx2_complete
+/-- builder N — `Session::prepare_buffer` (whole method, `Gen/SessionTx.lean`): the frame handed to the codec
+carries FCnt = the session's `fcnt_up`, and `prepare_buffer` does not advance the counter (the model's
+`prepareBuffer`, which `C06.send_uses_fcnt` is about); see `C12.tieA_prepare_buffer_header` for the other
+header fields.  Proved in `Props/TieA/PrepareBuffer.lean`. -/
+theorem tieA_prepare_buffer_header {β : Type} [Gen.SessionTx.TxBufOps β] (codec : Gen.SessionTx.FrameCodec)
+    (gs : Gen.SessionTx.Session) (d : Gen.SessionTx.SendData) (tx : β) (g : Gen.SessionTx.Configuration) (r : RegionId)
+    (hp : 0 ≤ d.fport)
+    (hret : ∀ p, TieA.Tx.natsOf (Gen.SessionTx.retained_pipeline p []) = retainSticky (p.length + 1) (TieA.Tx.natsOf p)) :
+    if d.fport = 0 ∧ d.data ≠ [] then
+      Gen.SessionTx.Session.prepare_buffer codec gs d tx g (TieA.Tx.regionOf r) = none ∧
+      prepareBuffer (TieA.Tx.sessOf gs) (TieA.Tx.cfgOf g) r (TieA.Tx.natsOf d.data) d.fport.toNat d.confirmed
+        = panic "Data payload with fport 0 not allowed"
+    else ∃ (f : Gen.SessionTx.DataFrame) (gs' : Gen.SessionTx.Session),
+      Gen.SessionTx.Session.prepare_buffer codec gs d tx g (TieA.Tx.regionOf r)
+        = (codec.build_into f (List.replicate 256 0) ⟨gs.nwkskey.inner⟩ (some ⟨gs.appskey.inner⟩)).bind (fun pkt =>
+            let o := Gen.SessionTx.TxBufOps.extend_from_slice (Gen.SessionTx.TxBufOps.clear (Gen.SessionTx.TxBufOps.clear tx)) pkt
+            o.1.map (fun _ => (gs.fcnt_up, gs', o.2)))
+      ∧ f.f_pending = false
+      ∧ f.frame_type = (if d.confirmed then .ConfirmedUp else .UnconfirmedUp)
+      ∧ prepareBuffer (TieA.Tx.sessOf gs) (TieA.Tx.cfgOf g) r (TieA.Tx.natsOf d.data) d.fport.toNat d.confirmed
+          = (if TieA.Tx.frameLen f > 256 then panic "Error assembling packet: BufferTooShort"
+             else if TieA.Tx.frameLen f ≥ 256 then panic "tx_buffer.extend_from_slice unwrap"
+             else .ok (TieA.Tx.descOf f, TieA.Tx.sessOf gs')) :=
+  TieA.Tx.tieA_prepare_buffer_header codec gs d tx g r hp hret
+
+#print axioms tieA_prepare_buffer_header
 end C06
